@@ -162,7 +162,7 @@ void summary_if_multi(vf::Ctx&, Result const&, std::string const&)
 }
 
 template <typename T, typename R>
-void run_layer(vf::Ctx& c, vf::RunCfg<T> const& cfg, std::vector<std::size_t> const& all_calls, T target, bool& unequal, bool unwritable, bool fewer_dists)
+void run_layer(vf::Ctx& c, vf::RunCfg<T> const& cfg, std::vector<std::size_t> const& all_calls, T target, bool& unequal, int path_kind, bool fewer_dists)
 {
     using Chk = typename R::Chk;
     // optionally the run under test continues a checkpoint with an integrand that has one distribution less than the one the
@@ -183,7 +183,9 @@ void run_layer(vf::Ctx& c, vf::RunCfg<T> const& cfg, std::vector<std::size_t> co
         hep::callback_mode::verbose_and_write_chkpt};
     // an unwritable checkpoint path (missing directory) must not change or break the run either: the writing modes
     // then simply cannot leave a file
-    std::string const file = unwritable ? std::string("/nonexistent-directory-for-c20/run.chkpt") : scratch_file();
+    // (path_kind 2: the default, empty file name - the writing modes cannot leave a file either)
+    bool const unwritable = path_kind != 0;
+    std::string const file = path_kind == 1 ? std::string("/nonexistent-directory-for-c20/run.chkpt") : path_kind == 2 ? std::string() : scratch_file();
     std::vector<std::string> final_text(4);
     std::vector<std::vector<std::string>> seen(4);
     for (int m = 0; m != 4; ++m)
@@ -230,7 +232,7 @@ void run_layer(vf::Ctx& c, vf::RunCfg<T> const& cfg, std::vector<std::size_t> co
         }
         ++c.sub;
     }
-    std::remove(file.c_str());
+    if (!file.empty()) { std::remove(file.c_str()); }
     std::remove((file + ".tmp").c_str());
     for (int m = 1; m != 4; ++m)
     {
@@ -295,8 +297,10 @@ void run_t(vf::Ctx& c)
     T const target = t.pick(3) == 0 ? static_cast<T>(std::pow(10.0L, -2.0L * t.unit())) : T(0);
     c.desc << vf::type_name<T>::get() << " run modes x4 calls=" << vf::show(calls) << " target=" << vf::show(target) << " pattern=" << how << ' ' << cfg.describe();
     bool unequal = false;
-    bool const unwritable = t.pick(5) == 0;
-    if (unwritable) { c.label("unwritable-checkpoint-path"); c.desc << " unwritable-path"; }
+    std::size_t const path_draw = t.pick(5);
+    int const unwritable = path_draw == 0 ? 1 : (path_draw == 1 ? 2 : 0);
+    if (unwritable == 1) { c.label("unwritable-checkpoint-path"); c.desc << " unwritable-path"; }
+    if (unwritable == 2) { c.label("empty-file-name"); c.desc << " empty-file-name"; }
     bool const fewer_dists = t.pick(4) == 1 && !cfg.fn.dists.empty() && calls.size() >= 2;
     if (fewer_dists) { c.label("continued-with-fewer-distributions"); c.desc << " continued-with-one-distribution-less"; }
     using E = std::mt19937;
